@@ -23,8 +23,15 @@ abstractly, statement by statement:
     to the const-ness of the called member (plus the members the standard declares race-free: begin, end, find, ...);
   * a lambda handed to `std::thread` is executed with an empty lock set and `spawned = true`; any other lambda is
     executed where it is handed over (condition-variable predicates, algorithm callbacks, factories);
-  * virtual calls of `Runnable::run` and calls of `std::function` objects are *boundaries* (user code): recorded in
-    the evidence, not followed.
+  * automatic objects of tulz classes: their constructor runs at the declaration, their user-provided destructor at the
+    end of the scope (before the guards of that scope are released); what their reference / pointer members were bound
+    to in the constructor is remembered; by-value copies keep pointing into the world of their source; members of
+    automatic objects themselves are thread-local and not recorded; arguments of an entry point are taken to be the
+    calling thread's own objects (assumption A3);
+  * virtual calls of `Runnable::run` and calls of `std::function` objects / function pointers are *boundaries* (user
+    code): recorded in the evidence, not followed; other virtual calls are followed into every overrider in the AST;
+  * contract conditions: an `if` whose condition contains `!observer->isValid()` (1) or `!m_removedObservers.empty()` (2)
+    marks the accesses of its THEN branch; the Lean side decides whether the intended use excludes them.
 
 FAIL CLOSED: an AST node kind, a lock operation, a guard form or a template the interpreter does not understand
 becomes an `unknown` entry, which makes the Lean obligation `C15_table_follows` fail.  A clang error fails the translator.
@@ -1195,8 +1202,9 @@ class Interp:
         params, body = self.lambda_parts(lam)
         if body is None:
             return self.unknown(site, "thread lambda without a body")
-        saved = (self.guards, self.conds, self.spawned)
-        self.guards, self.conds, self.spawned = [], [], True
+        # the new thread holds none of the creator's locks and does not run "inside" the creator's constructors
+        saved = (self.guards, self.conds, self.spawned, self.ctor_objs, self.cleanups)
+        self.guards, self.conds, self.spawned, self.ctor_objs, self.cleanups = [], [], True, [], []
         self.stack.append("new-thread lambda@%s" % (lam.get("_at", ("?", "?"))[1]))
         key = ("spawn", id(lam))
         self.active.append(key)
@@ -1208,7 +1216,7 @@ class Interp:
         finally:
             self.active.pop()
             self.stack.pop()
-            self.guards, self.conds, self.spawned = saved
+            self.guards, self.conds, self.spawned, self.ctor_objs, self.cleanups = saved
 
     # ---- statements
     def meet(self, states):
